@@ -118,13 +118,15 @@ WalkMove(I, cf, a, b) ==
 Admissible(I, cf, st, t, lp, len) ==
   /\ ~DoStop(cf, lp, len, I.dE[st][t])
   /\ (t > 0 /\ IsEdge(st) /\ ~cf.onlyEdges) => I.tiE[st][t] = 1
+\* first-order transition term of the oracle: the abstract constant, or (real matchers) the extracted table
+TransW(I, a, b, t) == IF I.hasTT THEN I.tt[<<a, b, t>>] ELSE (IF a = b THEN 0 ELSE I.tr.move)
 RECURSIVE Reach(_, _, _)
 Reach(I, cf, t) ==
   IF t = 0 THEN {<<st, I.lE[st][0]>> : st \in {s \in AllStates(I, cf) :
                       /\ (cf.onlyEdges \/ ~IsEdge(s)) /\ I.dE[s][0] < cf.maxDistInit
                       /\ Admissible(I, cf, s, 0, I.lE[s][0], 1)}}
   ELSE LET prev == Reach(I, cf, t - 1) IN
-       {y \in UNION {{<<b, x[2] + (IF x[1] = b THEN 0 ELSE I.tr.move) + I.lE[b][t]>> :
+       {y \in UNION {{<<b, x[2] + TransW(I, x[1], b, t) + I.lE[b][t]>> :
                          b \in {b \in AllStates(I, cf) : WalkMove(I, cf, x[1], b)}} : x \in prev} :
           Admissible(I, cf, y[1], t, y[2], t + 1)}
 RECURSIVE OptIdxFrom(_, _, _, _)
@@ -136,7 +138,7 @@ Optimal(I, cf, n, R) ==
   LET oi == OptIdx(I, cf, n) IN
   IF oi = -1 THEN R.path = << >> /\ R.idx = 0
   ELSE /\ R.path # << >> /\ R.idx = oi
-       /\ R.path[Len(R.path)].lp = OptScore(I, cf, oi)
+       /\ LET d == R.path[Len(R.path)].lp - OptScore(I, cf, oi) IN d <= cf.slack * n /\ -d <= cf.slack * n
 
 (***************************************************************************)
 (* C09: well-formedness of a lattice.                                      *)
